@@ -1143,16 +1143,19 @@ def shrink_law(case, fn):
             return fn(c) is not None
         except Exception:  # noqa
             return False
+    MID = EPOCH + 50 * 365 * DAY       # 2019-12-20, an unremarkable day
+    steps = [lambda d: dict(d, fold=0),
+             lambda d: dict(d, fl='timezone') if d['o'] is not None else d,
+             lambda d: dict(d, o=(d['o'] // (3600 * US)) * 3600 * US) if d['o'] else d,
+             lambda d: dict(d, w=MID + d['w'] % DAY),
+             lambda d: dict(d, w=d['w'] - d['w'] % (3600 * US)),
+             lambda d: dict(d, w=d['w'] - d['w'] % DAY)]
     for key in ('d', 'd2'):
-        if key in case:
-            d = case[key]
-            for cand in (dict(d, fold=0), dict(d, w=d['w'] - d['w'] % DAY), dict(d, w=EPOCH + 50 * 365 * DAY + d['w'] % DAY),
-                         dict(d, w=EPOCH + 50 * 365 * DAY),
-                         dict(d, o=(d['o'] // (3600 * US)) * 3600 * US) if d['o'] else d,
-                         dict(d, fl='timezone') if d['o'] is not None else d):
-                c2 = dict(case, **{key: cand})
-                if cand != case[key] and fails(c2):
-                    case = c2
+        for step in steps:
+            if key in case:
+                cand = step(case[key])
+                if cand != case[key] and 0 <= cand['w'] < MAXWALL and fails(dict(case, **{key: cand})):
+                    case = dict(case, **{key: cand})
     for key, cands in (('t', [0, DAY, 3600 * US, US, 1]), ('o', [3600 * US, 0]), ('s', [0, 1000, 1000.5])):
         if key in case:
             for v in cands:
